@@ -468,7 +468,7 @@ type panicInfo struct{ H, ID int }
 // panicValue: handlers panic with values of many shapes - whatever the value,
 // a panic is a failed invocation.
 func panicValue(hi, id int) any {
-	switch (hi + id) % 7 {
+	switch (hi + id) % 9 {
 	case 0:
 		return fmt.Sprintf("boom %d/%d", hi, id)
 	case 1:
@@ -481,6 +481,10 @@ func panicValue(hi, id int) any {
 		return panicInfo{hi, id}
 	case 5:
 		return &panicInfo{hi, id}
+	case 6:
+		return map[string]int{"h": hi}
+	case 7:
+		return struct{ Codes []int }{[]int{hi, id}}
 	}
 	return []byte("boom")
 }
